@@ -441,7 +441,7 @@ static void mode_reuse(vh::Trace& tr, long runs, int maxlen, vh::Rng& rng) {
     std::vector<vh::LmRec> recs = random_stream(rng, g, rng.range(6, maxlen), true, false, true);
     if (base == 0) st.frames = random_frames(rng, 3, last_mark(recs));
     if (base == 2) st.nStore = rng.range(1, 6);
-    const bool files = !g_scratch.empty() && run % 4 == 3 && (g.maxT == 0 || templ->get_num_tof_poss() > 1);
+    const bool files = !g_scratch.empty() && run % 3 == 1 && (g.maxT == 0 || templ->get_num_tof_poss() > 1);
     if (files) st.file_prefix = g_scratch + "/c14reuse" + std::to_string(run) + "a";
     st.segIM = rng.coin() ? -1 : 1; st.tofIM = rng.coin() ? -1 : 1;
     Session ses;
@@ -452,7 +452,8 @@ static void mode_reuse(vh::Trace& tr, long runs, int maxlen, vh::Rng& rng) {
     if (files) kinds.push_back("prefix");
     const int steps = rng.range(3, 5);
     for (int k = 0; k < steps; ++k) {
-      const std::string kind = (k == 0 && run % 2 == 0) ? std::string(st.storeP ? "storeD" : "storeP") : rng.pick(kinds);
+      static long cyc = 0;
+      const std::string kind = k == 0 ? kinds[(size_t)(cyc++ % (long)kinds.size())] : rng.pick(kinds);
       Settings nx = st;
       Geo ng = g;
       std::vector<vh::LmRec> nrecs = recs;
@@ -631,7 +632,8 @@ static int choose_max_seg(vh::Rng& rng, const ProjDataInfo& templ) {
   static long count = 0;
   ++count;
   if (count % 5 == 2) return 0;
-  if (count % 5 == 4) return rng.pick(std::vector<int>{ 1, mx, mx + 1, 0 });
+  if (count % 10 == 4) return mx + 1;
+  if (count % 10 == 9) return rng.pick(std::vector<int>{ 1, mx });
   return -1;
 }
 
@@ -824,94 +826,120 @@ static void run_gradx(vh::Trace& tr, vh::Rng& rng, int stage) {
   const int numSubsets = choose_subsets(rng, templ, image, [&] { return shared_ptr<ProjectorByBinPair>(vh::make_explicit_projector_pair(data)); });
   std::vector<vh::LmRec> recs = random_stream(rng, g, rng.range(10, stage ? 100 : 50), true, false, true);
   std::vector<std::pair<long, long>> frames{ { 0, 125 }, { 125, 500 }, { 500, 1000 } };
-  const CacheMode cm = random_cache(rng, recs);
   const unsigned long dur = last_mark(recs);
-  const int frame_num = dur < 125 ? rng.range(0, 1) : dur < 500 ? rng.range(0, 2) : rng.range(0, 3);    // 0: no frame definitions
-  {
-    vh::Json j("GConfig");
-    j.num("id", ++g_cfg_id).boolean("xm", true);
-    geo_fields(j, g, *templ);
-    std::vector<std::vector<long long>> fr;
-    if (frame_num > 0) fr.push_back({ frames[frame_num - 1].first, frames[frame_num - 1].second });
-    j.num("numSubsets", numSubsets).boolean("hasAdd", hasAdd).num("k", K).arr2("frames", fr).num("frameNum", frame_num).num("len", (long long)recs.size())
-        .num("cache", cm.cache).boolean("disk", cm.disk).num("maxSegProc", maxSegProc);
-    pdi_fields(j, *templ);
-    j.num("nvox", (long long)vox.size()).arr("lam", lam).arr2("rows", rows);
-    tr.emit(j);
-    std::vector<std::vector<long long>> rr;
-    for (auto& r : recs) rr.push_back(r.as_ints());
-    tr.emit(vh::Json("Stream").arr2("recs", rr));
-  }
-  std::string msg;
-  bool err = vh::threw([&] {
-    auto lm = std::make_shared<vh::VhListModeData<>>(templ, recs, true);
-    shared_ptr<ProjData> hist(new ProjDataInMemory(lm->get_exam_info_sptr(), templ));
+  // the settings of one execution of the list-mode objective function object
+  struct GP { int numSubsets, maxSegProc, frame_num; CacheMode cm; };
+  GP cur{ numSubsets, maxSegProc, dur < 125 ? rng.range(0, 1) : dur < 500 ? rng.range(0, 2) : rng.range(0, 3), random_cache(rng, recs) };
+  auto lm = std::make_shared<vh::VhListModeData<>>(templ, recs, true);
+  LmObjProbe lmobj;          // ONE object: after the first execution one setting is changed and set_up() is called again
+  static long call = 0;
+  const int executions = (++call % 2 == 0) ? rng.range(2, 3) : 1;
+  GP prev = cur;
+  for (int ex = 0; ex < executions; ++ex) {
+    std::string changed;
+    if (ex > 0) {
+      prev = cur;
+      static long pick = 0;
+      const int what = (int)(++pick % 4);
+      if (what == 0) {
+        const int n = choose_subsets(rng, templ, image, [&] { return shared_ptr<ProjectorByBinPair>(vh::make_explicit_projector_pair(data)); });
+        if (n != cur.numSubsets) { cur.numSubsets = n; changed = "numSubsets"; }
+      } else if (what == 1) { cur.maxSegProc = cur.maxSegProc == -1 ? 0 : -1; changed = "maxSegProc"; }
+      else if (what == 2) { const int f = rng.range(0, dur < 125 ? 1 : dur < 500 ? 2 : 3); if (f != cur.frame_num) { cur.frame_num = f; changed = "frame"; } }
+      if (changed.empty()) { cur.cm = random_cache(rng, recs); changed = "cache"; }
+    }
+    const int nsub = cur.numSubsets, frame_num = cur.frame_num;
     {
-      LmProbe l2p;
-      l2p.set_input_data(lm);
-      l2p.set_template_proj_data_info_sptr(templ);
-      l2p.set_output_filename_prefix("c14-unused");
-      l2p.set_store_prompts(true);
-      l2p.set_store_delayeds(false);
-      if (frame_num > 0) {
-        std::vector<std::pair<double, double>> ft{ { (unsigned long)frames[frame_num - 1].first / 1000., (unsigned long)frames[frame_num - 1].second / 1000. } };
-        l2p.set_time_frame_definitions(TimeFrameDefinitions(ft));
-      }
-      l2p.set_up();
-      l2p.replace_output(hist);
-      l2p.process_data();
-      emit_out(tr, *hist, 1, false);
+      vh::Json j("GConfig");
+      j.num("id", ++g_cfg_id).boolean("xm", true).boolean("reuse", ex > 0).str("changed", changed);
+      geo_fields(j, g, *templ);
+      std::vector<std::vector<long long>> fr;
+      if (frame_num > 0) fr.push_back({ frames[frame_num - 1].first, frames[frame_num - 1].second });
+      j.num("numSubsets", nsub).boolean("hasAdd", hasAdd).num("k", K).arr2("frames", fr).num("frameNum", frame_num).num("len", (long long)recs.size())
+          .num("cache", cur.cm.cache).boolean("disk", cur.cm.disk).num("maxSegProc", cur.maxSegProc);
+      pdi_fields(j, *templ);
+      j.num("nvox", (long long)vox.size()).arr("lam", lam).arr2("rows", rows);
+      tr.emit(j);
+      std::vector<std::vector<long long>> rr;
+      for (auto& r : recs) rr.push_back(r.as_ints());
+      tr.emit(vh::Json("Stream").arr2("recs", rr));
     }
-    LmObjProbe lmobj;
-    lmobj.set_input_data(lm);
-    lmobj.set_proj_matrix(shared_ptr<ProjMatrixByBin>(new vh::ExplicitProjMatrix(data)));
-    if (hasAdd) lmobj.set_additive_proj_data_sptr(add);
-    lmobj.set_num_subsets(numSubsets);
-    lmobj.set_use_subset_sensitivities(true);
-    lmobj.set_recompute_sensitivity(true);
-    lmobj.set_skip_balanced_subsets(true);
-    if (frame_num > 0) {
-      std::vector<std::pair<double, double>> ft;
-      for (int f = 0; f < frame_num; ++f) ft.push_back({ (unsigned long)frames[f].first / 1000., (unsigned long)frames[f].second / 1000. });
-      lmobj.frame_defs = TimeFrameDefinitions(ft);
-      lmobj.set_frame_num(frame_num);
-    }
-    apply_cache_before_set_up(lmobj, cm);
-    lmobj.set_max_segment_num_to_process(maxSegProc);
-    if (lmobj.set_up(image) != Succeeded::yes) error("list-mode objective set_up failed");
-    apply_cache_after_set_up(lmobj, cm);
-    PoissonLogLikelihoodWithLinearModelForMeanAndProjData<Img> pdobj;
-    pdobj.set_proj_data_sptr(hist);
-    pdobj.set_projector_pair_sptr(vh::make_explicit_projector_pair(data));
-    if (hasAdd) pdobj.set_additive_proj_data_sptr(add);
-    pdobj.set_num_subsets(numSubsets);
-    pdobj.set_max_segment_num_to_process(maxSegProc);
-    pdobj.set_use_subset_sensitivities(true);
-    pdobj.set_recompute_sensitivity(true);
-    pdobj.set_zero_seg0_end_planes(false);
-    if (pdobj.set_up(image) != Succeeded::yes) error("projection-data objective set_up failed");
-    shared_ptr<Img> g1(image->get_empty_copy()), g2(image->get_empty_copy());
-    for (int sub = 0; sub < numSubsets; ++sub)
-      tr.emit(vh::Json("Sens").num("subset", sub).num("k", K).arr("lm", img_fx(lmobj.get_subset_sensitivity(sub), K)).arr("pd", img_fx(pdobj.get_subset_sensitivity(sub), K)));
-    for (int sub = 0; sub < numSubsets; ++sub)
-      for (int plus = 1; plus >= 0; --plus) {
-        g1->fill(0.F); g2->fill(0.F);
-        if (plus) {
-          lmobj.compute_sub_gradient_without_penalty_plus_sensitivity(*g1, *image, sub);
-          pdobj.compute_sub_gradient_without_penalty_plus_sensitivity(*g2, *image, sub);
-        } else {
-          lmobj.compute_sub_gradient_without_penalty(*g1, *image, sub);
-          pdobj.compute_sub_gradient_without_penalty(*g2, *image, sub);
+    std::string msg;
+    bool err = vh::threw([&] {
+      shared_ptr<ProjData> hist(new ProjDataInMemory(lm->get_exam_info_sptr(), templ));
+      {
+        lm->reset();
+        LmProbe l2p;
+        l2p.set_input_data(lm);
+        l2p.set_template_proj_data_info_sptr(templ);
+        l2p.set_output_filename_prefix("c14-unused");
+        l2p.set_store_prompts(true);
+        l2p.set_store_delayeds(false);
+        if (frame_num > 0) {
+          std::vector<std::pair<double, double>> ft{ { (unsigned long)frames[frame_num - 1].first / 1000., (unsigned long)frames[frame_num - 1].second / 1000. } };
+          l2p.set_time_frame_definitions(TimeFrameDefinitions(ft));
         }
-        tr.emit(vh::Json("Grad").num("subset", sub).boolean("plusSens", plus != 0).num("k", K).arr("lm", img_fx(*g1, K)).arr("pd", img_fx(*g2, K)));
+        l2p.set_up();
+        l2p.replace_output(hist);
+        l2p.process_data();
+        emit_out(tr, *hist, 1, false);
       }
-    emit_hessians(tr, lmobj, pdobj, image, numSubsets, 12);
-  }, &msg);
-  remove_cache_files();
-  vh::Json e("End");
-  e.boolean("err", err);
-  if (err) e.str("msg", msg);
-  tr.emit(e);
+      if (ex == 0) {
+        lmobj.set_input_data(lm);
+        lmobj.set_proj_matrix(shared_ptr<ProjMatrixByBin>(new vh::ExplicitProjMatrix(data)));
+        if (hasAdd) lmobj.set_additive_proj_data_sptr(add);
+        lmobj.set_use_subset_sensitivities(true);
+        lmobj.set_recompute_sensitivity(true);
+        lmobj.set_skip_balanced_subsets(true);
+      }
+      // only the setter of the changed setting is called on the re-used object
+      if (ex == 0 || prev.numSubsets != cur.numSubsets) lmobj.set_num_subsets(nsub);
+      if (ex == 0 || prev.frame_num != cur.frame_num) {
+        std::vector<std::pair<double, double>> ft;
+        for (int f = 0; f < frame_num; ++f) ft.push_back({ (unsigned long)frames[f].first / 1000., (unsigned long)frames[f].second / 1000. });
+        lmobj.frame_defs = TimeFrameDefinitions(ft);
+        lmobj.set_frame_num(frame_num > 0 ? frame_num : 1);
+      }
+      if (ex == 0 || prev.cm.cache != cur.cm.cache || prev.cm.disk != cur.cm.disk) {
+        if (cur.cm.disk) apply_cache_before_set_up(lmobj, cur.cm); else lmobj.set_cache_max_size(0);
+      }
+      if (ex == 0 || prev.maxSegProc != cur.maxSegProc) lmobj.set_max_segment_num_to_process(cur.maxSegProc);
+      if (lmobj.set_up(image) != Succeeded::yes) error("list-mode objective set_up failed");
+      apply_cache_after_set_up(lmobj, cur.cm);
+      PoissonLogLikelihoodWithLinearModelForMeanAndProjData<Img> pdobj;
+      pdobj.set_proj_data_sptr(hist);
+      pdobj.set_projector_pair_sptr(vh::make_explicit_projector_pair(data));
+      if (hasAdd) pdobj.set_additive_proj_data_sptr(add);
+      pdobj.set_num_subsets(nsub);
+      pdobj.set_max_segment_num_to_process(cur.maxSegProc);
+      pdobj.set_use_subset_sensitivities(true);
+      pdobj.set_recompute_sensitivity(true);
+      pdobj.set_zero_seg0_end_planes(false);
+      if (pdobj.set_up(image) != Succeeded::yes) error("projection-data objective set_up failed");
+      shared_ptr<Img> g1(image->get_empty_copy()), g2(image->get_empty_copy());
+      for (int sub = 0; sub < nsub; ++sub)
+        tr.emit(vh::Json("Sens").num("subset", sub).num("k", K).arr("lm", img_fx(lmobj.get_subset_sensitivity(sub), K)).arr("pd", img_fx(pdobj.get_subset_sensitivity(sub), K)));
+      for (int sub = 0; sub < nsub; ++sub)
+        for (int plus = 1; plus >= 0; --plus) {
+          g1->fill(0.F); g2->fill(0.F);
+          if (plus) {
+            lmobj.compute_sub_gradient_without_penalty_plus_sensitivity(*g1, *image, sub);
+            pdobj.compute_sub_gradient_without_penalty_plus_sensitivity(*g2, *image, sub);
+          } else {
+            lmobj.compute_sub_gradient_without_penalty(*g1, *image, sub);
+            pdobj.compute_sub_gradient_without_penalty(*g2, *image, sub);
+          }
+          tr.emit(vh::Json("Grad").num("subset", sub).boolean("plusSens", plus != 0).num("k", K).arr("lm", img_fx(*g1, K)).arr("pd", img_fx(*g2, K)));
+        }
+      emit_hessians(tr, lmobj, pdobj, image, nsub, 12);
+    }, &msg);
+    remove_cache_files();
+    vh::Json e("End");
+    e.boolean("err", err);
+    if (err) e.str("msg", msg);
+    tr.emit(e);
+    if (err) break;
+  }
 }
 
 // ---------------------------------------------------------------- scanner-specific record decoder: ECAT8 32-bit (PETLINK) words
